@@ -302,7 +302,7 @@ func main() {
 			crits = append(crits, "intKeyed")
 		}
 		for _, L := range lib.AllLevelMaps() {
-			for _, anchor := range []string{"found", "notfound", "loaderr"} {
+			for _, anchor := range []string{"found", "notfound", "loaderr", "empty"} {
 				for _, ident := range []bool{true, false} {
 					for _, expired := range []bool{false, true} {
 						for _, certValid := range []bool{true, false} {
@@ -381,6 +381,8 @@ func main() {
 			ts.Put(storeType+":x", root.Cert)
 		case "notfound":
 			ts.Put(storeType+":x", other.Cert)
+		case "empty": // the store loads but delivers nothing: authenticity fails the "inconclusive" way, the level still decides
+			ts.Stores[storeType+":x"] = []*x509.Certificate{}
 		}
 		id := "x509.subject:C=US,ST=WA,O=Org"
 		if !c.Ident {
